@@ -9,7 +9,7 @@ import (
 )
 
 var killCmds = []string{"kill-line", "backward-kill-line", "unix-line-discard", "kill-whole-line", "kill-word", "backward-kill-word",
-	"unix-word-rubout", "shell-kill-word", "shell-backward-kill-word"}
+	"unix-word-rubout", "shell-kill-word", "shell-backward-kill-word", "kill-buffer"}
 
 // removedBy reports whether after = before with exactly the substring `removed`
 // cut out, and the positions at which that cut can have happened.
